@@ -4,6 +4,7 @@ import (
 	"fmt"
 	"go/token"
 	"go/types"
+	"sort"
 	"strconv"
 	"strings"
 
@@ -64,7 +65,7 @@ var contractSMTFns = map[string]smtFn{
 	"rv_type":     {[]string{"RV"}, "TypeTag", nil},
 	"rv_len":      {[]string{"RV"}, "Int", types.Typ[types.Int]},
 	"rv_index":    {[]string{"RV", "Int"}, "RV", nil},
-	"rv_mapindex": {[]string{"RV", "RV"}, "RV", nil},
+	"rv_mapval":   {[]string{"RV", "Iface"}, "RV", nil},
 	"rv_key":      {[]string{"RV", "Int"}, "RV", nil},
 	"rv_iskey":    {[]string{"RV", "RV"}, "Bool", types.Typ[types.Bool]},
 	"birth":       {[]string{"Ref"}, "Int", types.Typ[types.Int]},
@@ -171,7 +172,7 @@ func (fr *Frame) eval(e *Expr, env *Env, st *State, old *State) *Val {
 				evalFail("dereference of non-pointer in %q", e.src)
 			}
 			a := u.addrOfPtr(x)
-			return term(u.loadAddr(st, a), pt.Elem())
+			return fr.loadedOld(term(u.loadAddr(st, a), pt.Elem()), st)
 		}
 	case "old":
 		return fr.eval(e.args[0], env, old, old)
@@ -193,6 +194,7 @@ func (fr *Frame) eval(e *Expr, env *Env, st *State, old *State) *Val {
 				srt = w.sortOf(ty)
 			}
 			nm := quote("q:" + qv.name)
+			u.qsorts[nm] = srt
 			binds = append(binds, fmt.Sprintf("(%s %s)", nm, srt))
 			v := &Val{K: vTerm, T: nm, Ty: ty, Srt: srt}
 			ne.vars[qv.name] = v
@@ -224,10 +226,10 @@ func (fr *Frame) eval(e *Expr, env *Env, st *State, old *State) *Val {
 		}
 		switch xt := x.Ty.Underlying().(type) {
 		case *types.Slice:
-			return term(u.sliceElem(st, xt.Elem(), x.T, i.T), xt.Elem())
+			return fr.loadedOld(term(u.sliceElem(st, xt.Elem(), x.T, i.T), xt.Elem()), st)
 		case *types.Map:
 			kt := fr.coerce(i, xt.Key(), st)
-			return term(fmt.Sprintf("(select %s %s)", u.mapVal(st, xt, x.T), kt), xt.Elem())
+			return fr.loadedOld(term(fmt.Sprintf("(select %s %s)", u.mapVal(st, xt, x.T), kt), xt.Elem()), st)
 		case *types.Basic:
 			w.declFun("strbyte", []string{"Str", "Int"}, "Int")
 			return term(fmt.Sprintf("(strbyte %s %s)", x.T, i.T), types.Typ[types.Uint8])
@@ -422,8 +424,10 @@ func (fr *Frame) evalField(x *Val, name string, st *State, e *Expr) *Val {
 	cur := x
 	for _, idx := range path {
 		ct := cur.Ty
+		var viaPtr *Val
 		if pt, ok := ct.Underlying().(*types.Pointer); ok {
 			a := u.addrOfPtr(cur)
+			viaPtr = a
 			cur = term(u.loadAddr(st, a), pt.Elem())
 			ct = pt.Elem()
 		}
@@ -432,8 +436,13 @@ func (fr *Frame) evalField(x *Val, name string, st *State, e *Expr) *Val {
 			evalFail("field path through non-struct %v", ct)
 		}
 		cur = term(u.w.fieldSel(ct, idx, cur.T), stt.Field(idx).Type())
+		if viaPtr != nil && !strings.Contains(viaPtr.Ref, "|q:") {
+			na := *viaPtr
+			na.Sels = []sel{{field: idx, cont: ct}}
+			u.closedPre(&na, stt.Field(idx).Type())
+		}
 	}
-	return cur
+	return fr.loadedOld(cur, st)
 }
 
 func (fr *Frame) evalCall(e *Expr, env *Env, st *State, old *State) *Val {
@@ -635,7 +644,46 @@ func (fr *Frame) evalCall(e *Expr, env *Env, st *State, old *State) *Val {
 			_ = psrt
 			ne.vars[p.name] = a
 		}
+		var outerLog map[string]string
+		if sf.opaque {
+			outerLog = u.readLog
+			u.readLog = map[string]string{}
+		}
 		r := fr.eval(sf.body, ne, st, old)
+		if sf.opaque {
+			log := u.readLog
+			u.readLog = outerLog
+			var hs, sorts, as []string
+			for h := range log {
+				hs = append(hs, h)
+			}
+			sortStrings(hs)
+			for _, p := range sf.params {
+				a := ne.vars[p.name]
+				as = append(as, a.T)
+				sorts = append(sorts, u.srt(a))
+			}
+			for _, h := range hs {
+				as = append(as, h)
+				sorts = append(sorts, log[h])
+				if outerLog != nil {
+					outerLog[h] = log[h]
+				}
+			}
+			fn := quote(fmt.Sprintf("ospec:%s/%d", sf.name, len(hs)))
+			w.declFun(fn, sorts, u.srt(r))
+			app := fmt.Sprintf("(%s %s)", fn, strings.Join(as, " "))
+			if len(as) == 0 {
+				app = fn
+			}
+			if !u.ospecDone[app] {
+				u.ospecDone[app] = true
+				u.fact(eq(app, r.T))
+			}
+			nr := *r
+			nr.T = app
+			r = &nr
+		}
 		rt, _ := u.eng.resolveType(pkg, sf.ret)
 		if rt != nil && r.Ty != nil {
 			if bb, ok := r.Ty.(*types.Basic); ok && bb.Kind() == types.UntypedInt {
@@ -646,6 +694,21 @@ func (fr *Frame) evalCall(e *Expr, env *Env, st *State, old *State) *Val {
 	}
 	evalFail("unknown function %q", e.name)
 	return nil
+}
+
+// loadedOld: references read from the heap denote objects that already exist (closed heap)
+func (fr *Frame) loadedOld(v *Val, st *State) *Val {
+	u := fr.u
+	if v.Ty == nil || st == nil {
+		return v
+	}
+	switch v.Ty.Underlying().(type) {
+	case *types.Pointer, *types.Map, *types.Chan, *types.Signature:
+		u.fact(fmt.Sprintf("(< (birth %s) %s)", v.T, st.now))
+	case *types.Slice:
+		u.fact(fmt.Sprintf("(< (birth (sdata %s)) %s)", v.T, st.now))
+	}
+	return v
 }
 
 func (fr *Frame) refOf(x *Val) string {
@@ -727,5 +790,7 @@ func (fr *Frame) loopEnv(h *ssa.BasicBlock, pv func(*ssa.Phi) *Val) *Env {
 	// built; use the names of named SSA values: parameters are already in ctVars)
 	return env
 }
+
+func sortStrings(xs []string) { sort.Strings(xs) }
 
 var _ = token.NoPos
